@@ -171,6 +171,17 @@ def retype_alternatives(t: Any) -> list[Any]:
 RAISERS = ["TypeError", "ArrowInvalid", "KeyError", "ValueError"]
 
 
+def _sendable(spec: tuple[Any, ...]) -> bool:
+    k = spec[0]
+    if k == "opt":
+        return _sendable(spec[1])
+    if k in ("list", "set"):
+        return spec[1][0] not in ("enum", "dc", "opt")
+    if k == "dict":
+        return all(x[0] not in ("enum", "dc", "opt") for x in spec[1:3])
+    return True
+
+
 def gen_method(rng: random.Random, idx: int) -> dict[str, Any]:
     from lib import tygen
 
@@ -179,6 +190,8 @@ def gen_method(rng: random.Random, idx: int) -> dict[str, Any]:
     params: list[tuple[Any, ...]] = []
     for j in range(nparams):
         spec = tygen.gen_spec(rng, 1)
+        while not _sendable(spec):  # lists of enums: not promised as RPC parameters, the typed client cannot send them
+            spec = tygen.gen_spec(rng, 1)
         if rng.random() < 0.3:
             params.append((f"p{j}", spec, True, tygen.gen_value(spec, rng)))
         else:
@@ -615,7 +628,7 @@ def judge(chk: Check, route: str, m: dict[str, Any], c: dict[str, Any], exp_kwar
             chk.violation(f"conforming_bad_status:{kindtag}:status{obs['status']}", "a conforming request to a well-behaved method did not get a plain 200", wit)
         if obs["error"] is not None:
             chk.violation(f"conforming_error_stream:{kindtag}:{obs['error']['type']}", "a conforming request to a well-behaved method was answered with an error batch", wit)
-    if chk.rng.random() < 0.002:
+    if chk.rng.random() < 0.02:
         chk.sample(wit)
 
 
@@ -647,3 +660,24 @@ def main(tier: str, seed: int) -> int:
         chk.merge(res)
     chk.exhaustive["single_point_perturbation_families_per_generated_signature"] = False
     return chk.finish()
+
+
+def replay(path: str) -> int:
+    """Re-execute the recorded (tier, seed) and report whether the recorded mechanism key fires again.
+
+    Generation is a pure function of the seed, so the witness case is regenerated exactly; 1 = fired again,
+    2 = diverged (reported as inconclusive / flaky), never 0.
+    """
+    import json
+    import os
+
+    from lib import evidence
+
+    with open(path) as fh:
+        rec = json.load(fh)
+    main(rec["tier"], int(rec["seed"]))
+    with open(os.path.join(evidence.EVIDENCE_DIR, f"{PID}.json")) as fh:
+        cov = json.load(fh)["coverage"]
+    fired = rec["key"] in cov.get("unlisted_violation_keys", []) or rec["key"] in cov.get("known_findings_seen", [])
+    print(f"REPLAY property={PID} key={rec['key']} {'fired again' if fired else 'DIVERGED (inconclusive)'}")
+    return 1 if fired else 2
